@@ -185,6 +185,14 @@ fn main() {
                                 "change" => did_change(&uri, &text_of(t), 2),
                                 "close" => did_close(&uri),
                                 "save" => did_save(&uri),
+                                "rename" => {
+                                    let newp = doc_path(root.as_ref(), t, outside.as_ref());
+                                    let _ = std::fs::rename(doc_path(root.as_ref(), u, outside.as_ref()), &newp);
+                                    (
+                                        "workspace/didRenameFiles".to_string(),
+                                        json!({"files": [{"oldUri": uri.to_string(), "newUri": uri_of(&newp).to_string()}]}),
+                                    )
+                                }
                                 "watch" => did_change_watched(&[(uri.clone(), 2)]),
                                 "wdel" => did_change_watched(&[(uri.clone(), 3)]),
                                 "cfg" => {
